@@ -298,3 +298,30 @@ def inlined_sites(facts, body, pred, depth=2, _seen=()):
             s.outer_body, s.outer_block, s.via = body, bi, (hb.path,) + s0.via
             out.append(s)
     return out
+
+
+def members_of(facts, body, depth=2):
+    """the bodies that make up an operation: the function, its closures, and (to the given depth) the crate's own non-public
+    helper functions of the same source file it calls, with their closures - what an extract-function refactoring produces"""
+    out = [body]
+    seen = {body.path}
+    frontier = [body]
+    for _ in range(depth + 1):
+        nxt = []
+        for b in frontier:
+            for cb in facts.closures_of(b.path):
+                if cb.path not in seen:
+                    seen.add(cb.path)
+                    out.append(cb)
+                    nxt.append(cb)
+            if _ == depth:
+                continue
+            for bi, t in b.calls():
+                hb = facts.body(t.callee.target()) if t.callee is not None else None
+                if hb is None or hb.path in seen or not hb.in_repo() or hb.kind == "closure" or hb.public or hb.impl_trait is not None or hb.file != body.file:
+                    continue
+                seen.add(hb.path)
+                out.append(hb)
+                nxt.append(hb)
+        frontier = nxt
+    return out
